@@ -149,11 +149,11 @@ func (g *G) pick(n int) int {
 	return g.C.ChooseC(CValue, n)
 }
 
-var intAlts = []string{"1", "0", "10", "9223372036854775807"}
 
 // count emits an INTEGER for LIMIT-like slots (non-negative int).
 func (g *G) count(role string, def string) int {
-	alts := []string{def, "0", "10", "2147483647"}
+	// the last two: the largest count, and one beyond it, which the parser clamps to the largest (strconv's range rule)
+	alts := []string{def, "0", "10", "2147483647", "9223372036854775807", "9223372036854775808", "010"}
 	t := g.value(INT, role, alts[g.pick(len(alts))])
 	n, _ := strconv.ParseInt(t, 10, 64)
 	return int(n)
